@@ -318,7 +318,7 @@ public:
   MDSPAN_CONDITIONAL_EXPLICIT((!std::is_convertible_v<typename _Mapping::extents_type, extents_type>))
   constexpr
   mapping(const _Mapping &other_mapping) noexcept
-      : padded_stride(padded_stride_type::init_padding(other_mapping.extents(), other_mapping.extents().extent(extent_to_pad_idx))),
+      : padded_stride(padded_stride_type::init_padding(static_cast<extents_type>(other_mapping.extents()), static_cast<index_type>(other_mapping.extents().extent(extent_to_pad_idx)))),
         exts(other_mapping.extents())
   {}
 
@@ -647,7 +647,7 @@ public:
       )
   MDSPAN_CONDITIONAL_EXPLICIT((!std::is_convertible_v<typename _Mapping::extents_type, extents_type>))
   constexpr mapping(const _Mapping &other_mapping) noexcept
-      : padded_stride(padded_stride_type::init_padding(other_mapping.extents(), other_mapping.extents().extent(extent_to_pad_idx))),
+      : padded_stride(padded_stride_type::init_padding(static_cast<extents_type>(other_mapping.extents()), static_cast<index_type>(other_mapping.extents().extent(extent_to_pad_idx)))),
         exts(other_mapping.extents())
   {}
 
